@@ -44,7 +44,7 @@ ASSUMPTIONS = [
     'rotations are orthonormal (the statement quantifies over orthonormal rotations); for boxes built by elfi itself the rotation is read from the box',
 ]
 CONFIG = {
-    'quick': {'shards': 16, 'cases': 200, 'timeout': 600, 'floor': 640},
+    'quick': {'shards': 16, 'cases': 160, 'timeout': 600, 'floor': 512},
     'thorough': {'shards': 32, 'cases': 1600, 'timeout': 3000, 'floor': 10240},
 }
 REQUIRED = ['contract_sample', 'contract_contains', 'contract_pdf', 'contract_line_search', 'draws_checked',
@@ -618,4 +618,5 @@ def run_post(ctx, case):
 
 def run_case(ctx, case):
     ctx.event('cases_' + case['kind'])
+    np.random.seed(case['seed'] % (2 ** 32))     # sample(seed=None) draws from the global generator: keep replays exact
     {'box': run_box, 'ls': run_ls, 'post': run_post}[case['kind']](ctx, case)
